@@ -234,6 +234,7 @@ func c16Gen(g *G) {
 	g.Emit("c16.run o,o g0;w1;B0;j;g1;w2;a1", "badmsg-for-pending")
 	c16GenPlain(g)
 	c16GenLostWrites(g)
+	c16GenFrames(g)
 }
 
 // c16GenPlain: PLAIN-TEXT frames (auth_key_id 0, msg_id, length, body — the envelope of the key exchange, which
@@ -463,6 +464,125 @@ func c16EmitLong(g *G, op string, tags ...string) {
 	}()
 }
 
+// ---- frames of the transport level that are no sealed message (plan step !…, event J, see sendJunk) ---------------
+//
+// The four-byte error code a real server answers a keyed client with (-404, -429, -444; 404, 0, -1 and the int32
+// extremes as well), frames of 0..3 and 5..7 bytes, frames of 8..23 bytes under the session's key id (no room for a
+// msg_key), under another key id, under key id 0 — alone, several in a row, before a request, with a request in
+// flight, around a reconnect. Oracle: the process lives, one warning per frame (stage 2), no connection is replaced
+// because of one (c16Judge), the request in flight gets the server's answer and the probe completes.
+func c16GenFrames(g *G) {
+	r := g.R
+	tag := "transport-frame-that-is-no-message"
+	codes := []string{"!c-404", "!c-429", "!c-444", "!c404", "!c0", "!c-1", "!c1", "!c2147483647", "!c-2147483648", "!c-503", "!c429"}
+	short := []string{"!z0", "!z1", "!z2", "!z3", "!z5", "!z6", "!z7", "!xff", "!x0102030405", "!xffffffffffffff"}
+	keyed := []string{"!k8", "!k9", "!k12", "!k16", "!k20", "!k23", "!o8", "!o11", "!o16", "!o23", "!o24", "!o40", "!z8", "!z12", "!z16", "!z19", "!z20", "!z23",
+		"!x0000000000000000010000000000000000000000", "!x000000000000000001000000aabbccdd01000000ff"}
+	for _, c := range codes[:6] {
+		g.Emit("c16.run o,o "+c+";g1;w1;a1", tag)
+		g.Emit("c16.run o,o g0;w1;"+c+";a0;j;g1;w2;a1", tag)
+	}
+	g.Emit("c16.run o,o "+strings.Join(codes, ";")+";g1;w1;a1", tag)
+	g.Emit("c16.run o,o g0;w1;"+strings.Join(codes, ";")+";a0;j;g1;w2;c(u,a1)", tag)
+	g.Emit("c16.run o,o "+strings.Join(short, ";")+";g1;w1;a1", tag)
+	g.Emit("c16.run o,o g0;w1;"+strings.Join(short, ";")+";a0;j;g1;w2;a1", tag)
+	g.Emit("c16.run o,o "+strings.Join(keyed, ";")+";g1;w1;a1", tag)
+	g.Emit("c16.run o,o g0;w1;"+strings.Join(keyed, ";")+";a0;j;g1;w2;a1", tag)
+	for _, f := range []string{"!z0", "!z3", "!z7", "!k8", "!k23", "!o8", "!z8", "!z23"} {
+		g.Emit("c16.run o,o g0;w1;"+f+";a0;j;"+f+";g1;w2;a1", tag)
+	}
+	// around a replaced connection: straight after the close, straight after the application's Reconnect
+	g.Emit("c16.run o,o g0;w1;!c-404;close;!c-429;!z0;g1;w2;a1;a0", tag)
+	g.Emit("c16.run o,o !c-404;u;!k9;X;!c-404;!z5;g1;w1;a1", tag)
+	var forty []string
+	for i := 0; i < 40; i++ {
+		forty = append(forty, "!c-429")
+	}
+	g.Emit("c16.run o,o g0;w1;"+strings.Join(forty, ";")+";a0;j;g1;w2;a1", tag)
+	all := append(append(append([]string{}, codes...), short...), keyed...)
+	ordinary := []string{"u", "x", "p", "n77", "c(u,p)", "q12345", "t", "~u", "b"}
+	n := g.N(14, 400)
+	for i := 0; i < n; i++ {
+		var plan []string
+		reqs, pending := 0, false
+		pick := func() string {
+			switch r.Intn(8) {
+			case 0:
+				return fmt.Sprintf("!c%d", int32(r.U64()))
+			case 1:
+				return fmt.Sprintf("!%s%d", []string{"k", "o"}[r.Intn(2)], 8+r.Intn(16))
+			case 2:
+				return fmt.Sprintf("!z%d", []int{0, 1, 2, 3, 5, 6, 7, 8 + r.Intn(16)}[r.Intn(8)])
+			}
+			return all[r.Intn(len(all))]
+		}
+		if r.Bool() {
+			plan = append(plan, "g0", "w1")
+			reqs, pending = 1, true
+		}
+		for j := 0; j < 1+r.Intn(7); j++ {
+			switch r.Intn(5) {
+			case 0:
+				plan = append(plan, ordinary[r.Intn(len(ordinary))])
+			case 1:
+				if r.Intn(3) == 0 {
+					plan = append(plan, []string{"close", "X"}[r.Intn(2)])
+				}
+				plan = append(plan, pick())
+			default:
+				plan = append(plan, pick())
+			}
+		}
+		if pending && r.Bool() {
+			plan = append(plan, "a0", "j")
+			pending = false
+		}
+		reqs++
+		plan = append(plan, "g1", fmt.Sprintf("w%d", reqs))
+		for j := 0; j < r.Intn(3); j++ {
+			plan = append(plan, pick()) // with the probe itself in flight
+		}
+		plan = append(plan, []string{"a1", "c(u,a1)"}[r.Intn(2)])
+		if pending {
+			plan = append(plan, "a0")
+		}
+		g.Emit("c16.run o,o "+strings.Join(plan, ";"), tag)
+	}
+}
+
+// c16Judge: the shared trace oracle, and: no connection is replaced that nobody ended. Every connection after the
+// first (N) answers a cause on record — the peer ended the one before (C:eof|drop|rst|cut), the application
+// reconnected (C:app), or the client found it broken (V:conn-broken: read deadline). A client that redials because of
+// a frame it could not use (an error code of the transport, a frame too short) drops whatever the server had in
+// flight on the old connection.
+func c16Judge(op []string, out string) string {
+	if why := rsJudge("c16")(op, out); why != "" {
+		return why
+	}
+	if len(op) == 0 || op[0] != "c16.run" || strings.HasPrefix(out, "panic") {
+		return ""
+	}
+	_, _, _, trace := rsParseRun(out)
+	conns, causes, junk := 0, 0, 0
+	for _, e := range rsSplitTrace(trace) {
+		if e == "Z" {
+			break
+		}
+		switch {
+		case strings.HasPrefix(e, "N:"):
+			conns++
+		case e == "C" || strings.HasPrefix(e, "C:") || e == "V:conn-broken":
+			causes++
+		case strings.HasPrefix(e, "J:"):
+			junk++
+		}
+	}
+	if conns > 1+causes {
+		return fmt.Sprintf("the client made %d connections; the peer or the application ended only %d (transport-level frames that are no message: %d): a connection was replaced that nobody ended", conns, causes, junk)
+	}
+	return ""
+}
+
 func c16Exec(op []string) string {
 	if ch, ok := c16Long[strings.Join(op, " ")]; ok {
 		delete(c16Long, strings.Join(op, " "))
@@ -473,5 +593,5 @@ func c16Exec(op []string) string {
 }
 
 func init() {
-	register(&Prop{Name: "c16", Gen: c16Gen, Exec: c16Exec, Judge: rsJudge("c16"), Teardown: rsTeardown})
+	register(&Prop{Name: "c16", Gen: c16Gen, Exec: c16Exec, Judge: c16Judge, Teardown: rsTeardown})
 }
